@@ -185,6 +185,10 @@ Proof.
   - apply np_rsafe, math_filter_np.
   - destruct args; [apply np_rsafe, html_filter_np|exact I].
   - apply seq_filter_safe.
+  - (* the date filter: a value or an error, whatever the format *)
+    unfold date_filter. destruct args as [|a [|b args']]; try exact I.
+    destruct v; try exact I. destruct (to_date_time O s); try exact I.
+    destruct (to_kstr O a); try exact I. destruct (Strftime.strftime d (c :: s0)); exact I.
 Qed.
 Lemma apply_filters_safe fs s : forall v, rsafe (apply_filters O v fs s).
 Proof.
